@@ -67,7 +67,10 @@ static void judge(const World &w, Avoid::Router *live, const vector<Avoid::ConnR
                   for (auto &v : p.v) { double cr = (bx - ax) * (v.y - ay) - (v.x - ax) * (by - ay), dt = (v.x - ax) * (bx - ax) + (v.y - ay) * (by - ay); if (cr == 0 && (dt == 0 || dt == L)) throughVertex = true; }
                   for (auto &o : w.shapes) if (o.alive) { Poly po = rect(o.x0 * S, o.y0 * S, o.x1 * S, o.y1 * S); for (auto &v : po.v) { double cr = (bx - ax) * (v.y - ay) - (v.x - ax) * (by - ay), dt = (v.x - ax) * (bx - ax) + (v.y - ay) * (by - ay);
                       bool onCutBoundary = v.x >= s.x0 * S && v.x <= s.x1 * S && v.y >= s.y0 * S && v.y <= s.y1 * S && (v.x == s.x0 * S || v.x == s.x1 * S || v.y == s.y0 * S || v.y == s.y1 * S);
-                      if (cr == 0 && dt > 0 && dt < L && onCutBoundary) throughVertex = true; } } }
+                      if (cr == 0 && dt > 0 && dt < L && onCutBoundary) throughVertex = true;
+                      //  (c) a vertex of a shape that the history added or moved lies strictly inside the segment (the segment runs along / through
+                      //      corners of the edited shape; its visibility was re-tested by the incremental code path)
+                      if (cr == 0 && dt > 0 && dt < L && o.touched) throughVertex = true; } } }
             }
         }
         // is the fresh route itself valid?  (if not, a free path may not exist and nothing is demanded)
